@@ -26,6 +26,23 @@ if TYPE_CHECKING:
     from guppylang_internals.tys.param import ConstParam
 
 
+def _new_node(cls: type[ast.AST]) -> ast.AST:
+    return cls.__new__(cls)
+
+
+class _RequiredInitArgs:
+    """Mixin for expression nodes whose `__init__` has required arguments.
+
+    `ast.AST.__reduce__` reconstructs a node by calling its class without arguments, so
+    `copy.copy`, `copy.deepcopy` and `pickle` fail for such nodes. Expressions are copied
+    when an overloaded call tries its variants, so every expression node that defines an
+    `__init__` with required arguments must list this mixin as its first base.
+    """
+
+    def __reduce__(self) -> tuple[Any, ...]:
+        return _new_node, (type(self),), dict(self.__dict__)
+
+
 class PlaceNode(ast.expr):
     place: "Place"
 
@@ -150,7 +167,7 @@ class TupleAccessAndDrop(ast.expr):
     _fields = ("value", "tuple_ty", "index")
 
 
-class MakeIter(ast.expr):
+class MakeIter(_RequiredInitArgs, ast.expr):
     """Creates an iterator using the `__iter__` magic method.
 
     This node is inserted in `for` loops and list comprehensions.
@@ -330,7 +347,7 @@ class TupleUnpack(ast.expr):
     _fields = ("pattern",)
 
 
-class ArrayUnpack(ast.expr):
+class ArrayUnpack(_RequiredInitArgs, ast.expr):
     """The LHS of an unpacking assignment of an array."""
 
     #: The (possibly starred) unpacking pattern
@@ -350,7 +367,7 @@ class ArrayUnpack(ast.expr):
         self.elt_type = elt_type
 
 
-class IterableUnpack(ast.expr):
+class IterableUnpack(_RequiredInitArgs, ast.expr):
     """The LHS of an unpacking assignment of an iterable type."""
 
     #: The (possibly starred) unpacking pattern
@@ -414,14 +431,14 @@ class CheckedNestedFunctionDef(ast.FunctionDef):
         self.captured = captured
 
 
-class Dagger(ast.expr):
+class Dagger(_RequiredInitArgs, ast.expr):
     """The dagger modifier"""
 
     def __init__(self, node: ast.expr) -> None:
         super().__init__(**node.__dict__)
 
 
-class Control(ast.Call):
+class Control(_RequiredInitArgs, ast.Call):
     """The control modifier"""
 
     ctrl: list[ast.expr]
@@ -435,7 +452,7 @@ class Control(ast.Call):
         self.qubit_num = None
 
 
-class Power(ast.expr):
+class Power(_RequiredInitArgs, ast.expr):
     """The power modifier"""
 
     iter: ast.expr
